@@ -28,6 +28,8 @@ class SchemaValidator:
         # { alias: checkpoint}
         self._checkpoints = {}  # to be collected during validation
         self._psuedo_checkpoints = []  # for implicit action dependencies on threads
+        # checkpoint objects that validation itself added to the schema
+        self._generated_checkpoints = []
         self._thread_groups = {}
 
         # {action_id: Pipeline}
@@ -59,6 +61,7 @@ class SchemaValidator:
 
         # reset everything that was collected while validating a previous schema
         self._psuedo_checkpoints = []
+        self._generated_checkpoints = []
         self._pipelines = {}
         self._aggregated_fields = {}
         self._type_details_at_path = {}
@@ -3221,6 +3224,7 @@ class SchemaValidator:
                                 ],
                             }
                         )
+                        self._generated_checkpoints.append(schema["checkpoints"][-1])
                         psuedo_checkpoint_ref = utils.as_namespaced_ref(
                             schema_id, psuedo_checkpoint_alias, "checkpoint"
                         )
@@ -3331,6 +3335,7 @@ class SchemaValidator:
                                 ],
                             }
                         )
+                        self._generated_checkpoints.append(schema["checkpoints"][-1])
                         psuedo_checkpoint_ref = utils.as_namespaced_ref(
                             schema_id, psuedo_checkpoint_alias, "checkpoint"
                         )
@@ -3777,11 +3782,7 @@ class SchemaValidator:
             isinstance(field, dict)
             and "obj_spec_name" in obj_spec
             and obj_spec["obj_spec_name"] == "checkpoint"
-            and "alias" in field
-            and (
-                field["alias"] in self._psuedo_checkpoints
-                or field["alias"].startswith("_stitch_")
-            )
+            and any(field is checkpoint for checkpoint in self._generated_checkpoints)
         ):
             return True
 
@@ -3934,6 +3935,7 @@ class SchemaValidator:
                         ] = f"checkpoint:{next_checkpoint_id}"
 
                         self.schema["checkpoints"].append(new_checkpoint)
+                        self._generated_checkpoints.append(new_checkpoint)
                         next_checkpoint_id += 1
                     else:
                         imported_object["depends_on"] = (
@@ -3970,6 +3972,7 @@ class SchemaValidator:
                     imported_object["gate_type"] = "AND"
 
                     self.schema["checkpoints"].append(new_checkpoint)
+                    self._generated_checkpoints.append(new_checkpoint)
                     next_checkpoint_id += 1
 
                 stitched_imports.append(import_id)
